@@ -450,8 +450,18 @@ func (e *Engine) checkPendingDump() *Violation {
 	mk := func(format string, args ...interface{}) *Violation {
 		return &Violation{Class: "dump-diff", Step: e.step, World: "load", Msg: fmt.Sprintf(format, args...)}
 	}
+	var changed *Violation
 	if !reflect.DeepEqual(pd.norm, normDump(pd.d)) {
-		return mk("the dump taken at step %d changed while the source world was used afterwards: %+v became %+v", pd.step, pd.norm, normDump(pd.d))
+		changed = mk("the dump taken at step %d changed while the source world was used afterwards: %+v became %+v", pd.step, pd.norm, normDump(pd.d))
+	}
+	also := func(v *Violation) *Violation {
+		if changed != nil {
+			// what the changed dump does to the alive answers of a world loaded from it (C02 after LoadEntities)
+			v.Class = "handle"
+			v.Also = append(v.Also, "dump-diff")
+			v.Msg = changed.Msg + "; " + v.Msg
+		}
+		return v
 	}
 	lw := ecs.NewWorld(ecs.NewConfig().WithCapacityIncrement(1 + e.step%5))
 	var msg string
@@ -464,20 +474,39 @@ func (e *Engine) checkPendingDump() *Violation {
 		lw.LoadEntities(&pd.d)
 	}()
 	if msg != "" {
+		if changed != nil {
+			return changed
+		}
 		return mk("delayed LoadEntities panicked: %s", msg)
 	}
-	for _, h := range pd.alive {
-		if !lw.Alive(h) {
-			return mk("delayed load: %v was alive when the dump was taken but is not alive in the loaded world", h)
+	var bad *Violation
+	func() {
+		defer func() {
+			if r := recover(); r != nil && bad == nil {
+				bad = also(mk("delayed load: probing Alive panicked: %v", r))
+			}
+		}()
+		for _, h := range pd.alive {
+			if !lw.Alive(h) {
+				bad = also(mk("delayed load: %v was alive when the dump was taken but is not alive in the loaded world", h))
+				return
+			}
 		}
-	}
-	for _, h := range pd.dead {
-		if lw.Alive(h) {
-			return mk("delayed load: %v was dead when the dump was taken but is alive in the loaded world", h)
+		for _, h := range pd.dead {
+			if lw.Alive(h) {
+				bad = also(mk("delayed load: %v was dead when the dump was taken but is alive in the loaded world", h))
+				return
+			}
 		}
+		if used := lw.Stats().Entities.Used; used != len(pd.alive) {
+			bad = also(mk("delayed load: %d entities, %d were alive when the dump was taken", used, len(pd.alive)))
+		}
+	}()
+	if bad != nil {
+		return bad
 	}
-	if used := lw.Stats().Entities.Used; used != len(pd.alive) {
-		return mk("delayed load: %d entities, %d were alive when the dump was taken", used, len(pd.alive))
+	if changed != nil {
+		return changed
 	}
 	if !reflect.DeepEqual(pd.norm, normDump(lw.DumpEntities())) {
 		return mk("delayed load: second dump differs from the original")
